@@ -31,6 +31,10 @@ type c13Scn struct {
 	Dialers int    `json:"dialers"` // goroutines calling DialAndSend on the same Client
 	PerCall int    `json:"per_call"`
 	Auth    string `json:"auth,omitempty"` // "" none, "LOGIN" (multi-step, stateful), "SCRAM-SHA-256", "AUTODISCOVER"
+	// Fault: the server refuses the first message of the LAST thread: 1 first recipient refused (550), 2 the same and
+	// the clean-up RSET is answered 421 + disconnect (dialer threads only: the connection is theirs), 3 DATA refused (554).
+	// Every other message must be unaffected.
+	Fault int `json:"fault,omitempty"`
 }
 
 type c13Case struct {
@@ -39,15 +43,21 @@ type c13Case struct {
 }
 
 var c13Scenarios = []c13Scn{
-	{"2xSend(1)", 2, 0, 1, ""},
-	{"2xSend(2)", 2, 0, 2, ""},
-	{"3xSend(1)", 3, 0, 1, ""},
-	{"2xDialAndSend(1)", 0, 2, 1, ""},
-	{"Send+DialAndSend", 1, 1, 1, ""},
-	{"2xSend+DialAndSend", 2, 1, 1, ""},
-	{"2xDialAndSend(1)+LOGIN", 0, 2, 1, "LOGIN"},
-	{"2xDialAndSend(1)+SCRAM", 0, 2, 1, "SCRAM-SHA-256"},
-	{"Send+DialAndSend+AUTODISCOVER", 1, 1, 1, "AUTODISCOVER"},
+	{"2xSend(1)", 2, 0, 1, "", 0},
+	{"2xSend(2)", 2, 0, 2, "", 0},
+	{"3xSend(1)", 3, 0, 1, "", 0},
+	{"2xDialAndSend(1)", 0, 2, 1, "", 0},
+	{"Send+DialAndSend", 1, 1, 1, "", 0},
+	{"2xSend+DialAndSend", 2, 1, 1, "", 0},
+	{"2xDialAndSend(1)+LOGIN", 0, 2, 1, "LOGIN", 0},
+	{"2xDialAndSend(1)+SCRAM", 0, 2, 1, "SCRAM-SHA-256", 0},
+	{"Send+DialAndSend+AUTODISCOVER", 1, 1, 1, "AUTODISCOVER", 0},
+	{"2xSend(1)/rcpt-refused", 2, 0, 1, "", 1},
+	{"2xSend(2)/data-refused", 2, 0, 2, "", 3},
+	{"Send+DialAndSend/dialer-rcpt-refused", 1, 1, 1, "", 1},
+	{"Send+DialAndSend/dialer-rcpt-refused+rset-fails", 1, 1, 1, "", 2},
+	{"Send+DialAndSend/dialer-data-refused", 1, 1, 1, "", 3},
+	{"2xDialAndSend(1)/rcpt-refused+rset-fails", 0, 2, 1, "", 2},
 }
 
 var c13Blocked int32
@@ -59,10 +69,14 @@ type c13World struct {
 	errs    []error
 	bodies  []func()
 	threads int
+	target  int // index of the message the server refuses (-1: none)
 }
 
 func c13Build(r *vf.Run, scn c13Scn, hook func(string)) *c13World {
-	w := &c13World{}
+	w := &c13World{target: -1}
+	if scn.Fault > 0 {
+		w.target = (scn.Senders + scn.Dialers - 1) * scn.PerCall
+	}
 	w.rig = &hx.Rig{Mk: func(n int) *refsmtp.Conn {
 		caps := []string{"8BITMIME"}
 		if scn.Auth != "" {
@@ -71,6 +85,30 @@ func c13Build(r *vf.Run, scn c13Scn, hook func(string)) *c13World {
 		sess := &refsmtp.Session{Host: hx.Host, Caps: caps}
 		c := refsmtp.NewConn(sess)
 		c.Hook = hook
+		if scn.Fault > 0 {
+			inTarget, rsetFails := false, false
+			sess.Script = func(s *refsmtp.Session, ev *refsmtp.Event, def refsmtp.Action) refsmtp.Action {
+				switch ev.Verb {
+				case "MAIL":
+					inTarget = strings.Contains(ev.Line, hx.Sender(w.target))
+				case "RCPT":
+					if inTarget && scn.Fault <= 2 && strings.Contains(ev.Line, hx.Rcpt(w.target, 0)) {
+						rsetFails = scn.Fault == 2
+						return refsmtp.Action{Kind: refsmtp.ActReply, Code: 550, Text: []string{"5.1.1 no such user"}}
+					}
+				case "DATA":
+					if inTarget && scn.Fault == 3 {
+						return refsmtp.Action{Kind: refsmtp.ActReply, Code: 554, Text: []string{"5.6.0 refused"}}
+					}
+				case "RSET":
+					if rsetFails {
+						rsetFails = false
+						return refsmtp.Action{Kind: refsmtp.ActReplyThenDrop, Code: 421, Text: []string{"4.3.0 closing"}}
+					}
+				}
+				return def
+			}
+		}
 		if scn.Auth != "" {
 			tr := &sasl.Trace{}
 			sess.NewAuth = saslFactory(c, c19User, c19Pass, tr)
@@ -120,9 +158,17 @@ func c13Judge(w *c13World, add func(key, f string, a ...interface{})) {
 	for _, ms := range w.msgs {
 		total += len(ms)
 	}
+	perCall := 1
+	if len(w.msgs) > 0 {
+		perCall = len(w.msgs[0])
+	}
 	for t, e := range w.errs {
-		if e != nil {
-			add("send-error", "thread %d: %v", t, e)
+		tgt := w.target >= 0 && w.target/perCall == t
+		if e != nil && !tgt {
+			add("send-error", "thread %d (none of its messages was refused by the server): %v", t, e)
+		}
+		if e == nil && tgt {
+			add("refusal-not-reported", "thread %d: the server refused message %d but the call returned nil", t, w.target)
 		}
 	}
 	committed := make([]int, total)
@@ -155,6 +201,12 @@ func c13Judge(w *c13World, add func(key, f string, a ...interface{})) {
 		}
 	}
 	for i, n := range committed {
+		if i == w.target {
+			if n != 0 {
+				add("refused-message-committed", "message %d was refused by the server but committed %d times", i, n)
+			}
+			continue
+		}
 		if n != 1 {
 			add(fmt.Sprintf("delivered-%d-times", n), "message %d was committed %d times", i, n)
 		}
@@ -162,8 +214,11 @@ func c13Judge(w *c13World, add func(key, f string, a ...interface{})) {
 	idx := 0
 	for _, ms := range w.msgs {
 		for _, m := range ms {
-			if !m.IsDelivered() {
+			if !m.IsDelivered() && idx != w.target {
 				add("not-marked-delivered", "message %d: IsDelivered()==false", idx)
+			}
+			if m.IsDelivered() && idx == w.target {
+				add("refused-message-marked-delivered", "message %d was refused by the server but IsDelivered()==true", idx)
 			}
 			idx++
 		}
@@ -211,8 +266,8 @@ func c13RacePass(iter int) int {
 	rng := rand.New(rand.NewSource(int64(iter)))
 	var rmu sync.Mutex
 	for it := 0; it < iter; it++ {
-		for _, scn := range []c13Scn{{"2", 2, 0, 1, ""}, {"8", 6, 2, 1, ""}, {"64", 48, 16, 1, ""}, {"3x2", 3, 0, 2, ""}, {"dial", 0, 4, 1, ""},
-			{"dial+login", 0, 6, 1, "LOGIN"}, {"mixed+scram", 3, 5, 1, "SCRAM-SHA-256"}, {"mixed+auto", 2, 6, 1, "AUTODISCOVER"}} {
+		for _, scn := range []c13Scn{{"2", 2, 0, 1, "", 0}, {"8", 6, 2, 1, "", 0}, {"64", 48, 16, 1, "", 0}, {"3x2", 3, 0, 2, "", 0}, {"dial", 0, 4, 1, "", 0},
+			{"dial+login", 0, 6, 1, "LOGIN", 0}, {"mixed+scram", 3, 5, 1, "SCRAM-SHA-256", 0}, {"mixed+auto", 2, 6, 1, "AUTODISCOVER", 0}} {
 			if scn.Senders+scn.Dialers > 16 && it%4 != 0 {
 				continue
 			}
@@ -259,7 +314,7 @@ func init() {
 	vf.Register(&vf.Check{
 		ID: "C13", Title: "concurrent use of one Client is safe",
 		Run: func(r *vf.Run) {
-			r.SetRule("scenarios {2×Send(1 msg), 2×Send(2 msgs), 3×Send(1), 2×DialAndSend, Send+DialAndSend, 2×Send+DialAndSend, 2×DialAndSend with LOGIN / SCRAM authentication, Send+DialAndSend with auto-discovered authentication} on one Client; ALL interleavings at visible operations (every Lock/RLock of go-mail's mutexes through the sync shim, every connection Read/Write/Close) up to the preemption bound, under a cooperative scheduler that models Go's RWMutex (a waiting writer blocks new readers); oracle per schedule: protocol monitor on every connection, commit log = every message exactly once with its own envelope and complete content, all calls return nil, no deadlock; plus a separate free-running pass of the same bodies under the Go race detector (2..64 goroutines, jittered I/O) — that pass samples schedules; distinct by (scenario, schedule)")
+			r.SetRule("scenarios {2×Send(1 msg), 2×Send(2 msgs), 3×Send(1), 2×DialAndSend, Send+DialAndSend, 2×Send+DialAndSend, 2×DialAndSend with LOGIN / SCRAM authentication, Send+DialAndSend with auto-discovered authentication; and scenarios in which the server refuses one message (a recipient with or without a failing clean-up RSET, or DATA) of one thread while the other threads' messages must be unaffected} on one Client; ALL interleavings at visible operations (every Lock/RLock of go-mail's mutexes through the sync shim, every connection Read/Write/Close) up to the preemption bound, under a cooperative scheduler that models Go's RWMutex (a waiting writer blocks new readers); oracle per schedule: protocol monitor on every connection, commit log = every message the server did not refuse exactly once with its own envelope and complete content (a refused one never), exactly the calls without a refused message return nil, no deadlock; plus a separate free-running pass of the same bodies under the Go race detector (2..64 goroutines, jittered I/O) — that pass samples schedules; distinct by (scenario, schedule)")
 			r.Assume("releases are not preemption points (sound for data-race-free code; races are the job of the separate -race pass)", "the race pass is sampling, not exhaustive: the 'no data race under any schedule' clause is only decided for the schedules it happens to run")
 			bound := 2
 			if r.Thorough {
